@@ -2513,6 +2513,12 @@ bool IGXMLScanner::scanStartTagNS(bool& gotData)
                 fPSVIElemContext.fErrorOccurred = true;
         }
     }
+    else if (fGrammarType == Grammar::SchemaGrammarType)
+    {
+        // An xsi:nil on an element that is not assessed (skip/lax wildcard)
+        // must not be taken for an attribute of the next validated element
+        ((SchemaValidator*)fValidator)->resetNillable();
+    }
 
     if (fGrammarType == Grammar::SchemaGrammarType) {
 
